@@ -322,7 +322,7 @@ func main() {
 		}
 		mand = append(mand, "post-disabled-refused:"+rn, "ok-with-grant_type-in-query-only:"+rn, "devauth-mixed-identity-stored-for-authenticated-client:"+rn)
 	}
-	n := run.N(3*coreCells, 80*coreCells)
+	n := run.N(10*coreCells, 80*coreCells)
 	if rc := run.ReplayCase(); rc >= 0 {
 		// a replay runs one case (on both routers, in fresh worlds); the coverage obligations do not apply to it
 		runCase(run, int(rc), pool{})
